@@ -210,14 +210,23 @@ func runUiss(t *Toks) string {
 
 // ---------- generator ----------
 
+// forced choices for the corpus generator (nil / negative = random)
+var uissForceIndex *uint32
+var uissForceScenario = -1
+
 func genUissCase(r *Rng) (*uissCase, *ubOracle) {
 	c := &uissCase{}
 	o := &ubOracle{}
 	c.hash = r.Bytes(32)
-	c.index = uint32(r.Pick(0, 1, 2, 7, 0x3fffffff, 65535))
+	// the entropy of a new issuance commits to the index exactly as it stands in the input:
+	// also the null index and indexes with bit 30 / 31 set (the API allows them)
+	c.index = uint32(r.Pick(0, 1, 2, 7, 0x3fffffff, 65535, 0xffffffff, 0x40000000, 0x80000001, 0xc0000000, 0x40000001, 0xfffffffe))
+	if uissForceIndex != nil {
+		c.index = *uissForceIndex
+	}
 	c.bnonce = make([]byte, 32)
 	c.entropy = r.Bytes(32)
-	reissuance := r.Chance(20)
+	reissuance := r.Chance(20) && uissForceIndex == nil
 	if reissuance {
 		c.bnonce = ubGenScalar(r)
 	}
@@ -255,6 +264,9 @@ func genUissCase(r *Rng) (*uissCase, *ubOracle) {
 		c.tokField = []byte{1, 0, 0, 0, 0, 0, 0, 0, byte(1 + r.Intn(9))}
 	}
 	scenario := r.Intn(100)
+	if uissForceScenario >= 0 {
+		scenario = uissForceScenario
+	}
 	if scenario < 4 {
 		c.vbfa = r.ubPickB(make([]byte, 32), ubCurveN)
 	}
@@ -376,7 +388,23 @@ func genUissCases(r *Rng, n int, w *bufio.Writer) {
 	}
 }
 
+// boundary cases for corpus/uiss.txt: honest new issuances on inputs whose outpoint index is
+// the null index or has bit 30 / 31 set, next to the largest plain index
+func genUissCorpus(r *Rng, n int, w *bufio.Writer) {
+	for _, idx := range []uint32{0xffffffff, 0x40000000, 0x80000001, 0xc0000000, 0x3fffffff} {
+		i := idx
+		uissForceIndex, uissForceScenario = &i, 10
+		c, o := genUissCase(r)
+		uissForceIndex, uissForceScenario = nil, -1
+		b := &sb{}
+		c.write(b)
+		o.write(b)
+		fmt.Fprintln(w, ubTrimRight(b.String()))
+	}
+}
+
 func init() {
+	gens["uiss-corpus"] = genUissCorpus
 	gens["uiss"] = genUissCases
 	runs["uiss"] = runUiss
 }
